@@ -494,10 +494,33 @@ func seedVariants(status datatransfer.Status, tid uint64, selfTok int) []*channe
 	return []*channels.VerifChannelState{v0, v1, v2, v3}
 }
 
+// one harness step: a plain event, or (when gated) e1 then e2 sent while e1's cleanup handler is held
+type fsmStep struct {
+	ev    fsmEv
+	gated bool
+	ev2   fsmEv
+}
+
+func (s fsmStep) coq() string {
+	if s.gated {
+		return fmt.Sprintf("HGated %s %s", s.ev.coq(), s.ev2.coq())
+	}
+	return "HEv " + s.ev.coq()
+}
+
+func plain(evs []fsmEv) []fsmStep {
+	var out []fsmStep
+	for _, e := range evs {
+		out = append(out, fsmStep{ev: e})
+	}
+	return out
+}
+
 type fsmCaseOut struct {
 	id     int
 	label  string
 	seed   string
+	steps  []fsmStep
 	evs    []fsmEv
 	oks    []bool
 	final  string
@@ -507,8 +530,8 @@ type fsmCaseOut struct {
 
 func (c fsmCaseOut) coq() string {
 	var evs, oks, ns, cl, up []string
-	for _, e := range c.evs {
-		evs = append(evs, e.coq())
+	for _, st := range c.steps {
+		evs = append(evs, st.coq())
 	}
 	for _, o := range c.oks {
 		oks = append(oks, coqBool(o))
@@ -566,14 +589,42 @@ func writeFsmCases(dir, name string, cases []fsmCaseOut) {
 
 // runCase executes one seeded history on the rig
 func (r *fsmRig) runCase(id int, label string, tid uint64, seed *channels.VerifChannelState, evs []fsmEv) fsmCaseOut {
+	return r.runSteps(id, label, tid, seed, plain(evs))
+}
+
+func (r *fsmRig) runSteps(id int, label string, tid uint64, seed *channels.VerifChannelState, steps []fsmStep) fsmCaseOut {
 	initTok, sTok, rTok := tokOfPeer(seed.Initiator), tokOfPeer(seed.Sender), tokOfPeer(seed.Recipient)
 	chid := r.create(tid, initTok, sTok, rTok, 1, 2, datatransfer.TypedVoucher{Type: "T1", Voucher: nodeOf(3)})
 	r.seed(chid, seed)
 	ncalls := len(r.env.snapshot())
-	out := fsmCaseOut{id: id, label: label, seed: coqChanRaw(seed, r.res), evs: evs}
-	for _, e := range evs {
-		err := r.ch.VerifSend(chid, e.Code, e.args()...)
-		out.oks = append(out.oks, err == nil)
+	out := fsmCaseOut{id: id, label: label, seed: coqChanRaw(seed, r.res), steps: steps}
+	for _, st := range steps {
+		out.evs = append(out.evs, st.ev)
+		if !st.gated {
+			err := r.ch.VerifSend(chid, st.ev.Code, st.ev.args()...)
+			out.oks = append(out.oks, err == nil)
+			r.quiesce(chid)
+			continue
+		}
+		out.evs = append(out.evs, st.ev2)
+		gate := make(chan struct{})
+		entered := make(chan datatransfer.ChannelID, 4)
+		r.env.mu.Lock()
+		r.env.gate, r.env.entered = gate, entered
+		r.env.mu.Unlock()
+		err1 := r.ch.VerifSend(chid, st.ev.Code, st.ev.args()...)
+		select {
+		case <-entered:
+		case <-time.After(5 * time.Second):
+			r.res.fail(monitorFailure{Property: "C09", CaseID: id, Signature: "ending-did-not-start-cleanup:" + eventName(st.ev.Code) + "@" + statusName(seed.Status),
+				What: "an ending event did not start the cleanup procedure within 5s", Input: label})
+		}
+		err2 := r.ch.VerifSend(chid, st.ev2.Code, st.ev2.args()...)
+		r.env.mu.Lock()
+		r.env.gate, r.env.entered = nil, nil
+		r.env.mu.Unlock()
+		close(gate)
+		out.oks = append(out.oks, err1 == nil, err2 == nil)
 		r.quiesce(chid)
 	}
 	st, _ := r.rawState(chid)
@@ -582,8 +633,41 @@ func (r *fsmRig) runCase(id int, label string, tid uint64, seed *channels.VerifC
 	all := r.env.snapshot()
 	out.calls = all[ncalls:]
 	// direct monitors (model independent)
-	r.monitorCase(id, label, seed, evs, st, out)
+	r.monitorCase(id, label, seed, out.evs, st, out)
+	r.monitorCleanup(id, label, seed, steps, st, out)
 	return out
+}
+
+// monitorCleanup (C09): with only bookkeeping events arriving while a cleanup handler runs,
+// the cleanup procedure (CleanupChannel + Unprotect) runs exactly once and the channel settles
+func (r *fsmRig) monitorCleanup(id int, label string, seed *channels.VerifChannelState, steps []fsmStep, final *channels.VerifChannelState, out fsmCaseOut) {
+	if len(steps) != 1 || !steps[0].gated || isTerminal(seed.Status) {
+		return
+	}
+	e1, e2 := steps[0].ev, steps[0].ev2
+	ending := map[datatransfer.EventCode]datatransfer.Status{datatransfer.Cancel: datatransfer.Cancelled, datatransfer.Error: datatransfer.Failed, datatransfer.Complete: datatransfer.Completed}
+	want, isEnding := ending[e1.Code]
+	if !isEnding || !bookkeepingEvents[e2.Code] || e2.Code == datatransfer.CompleteCleanupOnRestart {
+		return
+	}
+	cleanups, unprotects := 0, 0
+	for _, c := range out.calls {
+		if c.Kind == "cleanup" {
+			cleanups++
+		}
+		if c.Kind == "unprotect" {
+			unprotects++
+		}
+	}
+	if cleanups != 1 || unprotects != 1 {
+		r.res.fail(monitorFailure{Property: "C09", CaseID: id, Signature: "cleanup-count:" + fmt.Sprintf("%d", cleanups) + ":bookkeeping-event-queued-during-cleanup",
+			What:  fmt.Sprintf("cleanup procedure ran %d times (unprotect %d) for one entry into a cleanup status; a bookkeeping event was queued while the cleanup handler ran", cleanups, unprotects),
+			Input: label, Observed: cleanups, Expected: 1})
+	}
+	if final.Status != want {
+		r.res.fail(monitorFailure{Property: "C09", CaseID: id, Signature: "did-not-settle:" + eventName(e1.Code),
+			What: "channel did not settle in the matching terminal status", Input: label, Observed: statusName(final.Status), Expected: statusName(want)})
+	}
 }
 
 func isTerminal(s datatransfer.Status) bool {
@@ -855,6 +939,57 @@ func runH1Hist(dir string, seedv uint64, tier string) {
 	res.Exhaustive = false
 	res.Rule = fmt.Sprintf("enumerated: every sequence of length <= %d over {FinishTransfer, ResponderCompletes, ResponderBeginsFinalization, DataReceived, PauseResponder} from Queued and Ongoing; generated: normal-flow histories of an accepted initiator (3-22 events) and unrestricted histories (2-26 events) from seeded statuses, one splitmix64 stream; non-trivial = at least 2 events, distinct = distinct (seed record, history)", maxLen)
 	writeFsmCases(dir, "fsmhist", cases)
+	res.write(dir)
+	_ = rig.ch.Stop(context.Background())
+}
+
+// ---------- fsmcleanup: ending events with another event queued while the cleanup handler runs ----------
+
+func runH1Cleanup(dir string, seedv uint64, tier string) {
+	res := newResult("fsmcleanup", seedv, tier)
+	rig := newFsmRig(res, 1, nil)
+	var cases []fsmCaseOut
+	id := 0
+	tid := uint64(900000)
+	var seconds []fsmEv
+	for code := datatransfer.Open; code <= datatransfer.SendMessageError; code++ {
+		if code == datatransfer.RequestTimedOut || code == datatransfer.TransferRequestQueued || code == datatransfer.SendMessageError {
+			continue // unknown to the processor: Send fails, nothing is queued
+		}
+		e := fsmEv{Code: code, Int: 5, Uint: 9, Err: "E2", Bool: true, VTyp: "T2", VTok: 6}
+		seconds = append(seconds, e)
+	}
+	endings := []fsmEv{{Code: datatransfer.Cancel}, {Code: datatransfer.Error, Err: "E1"}, {Code: datatransfer.Complete}}
+	for st := datatransfer.Requested; st <= datatransfer.AwaitingAcceptance; st++ {
+		if isTerminal(st) {
+			continue
+		}
+		for _, e1 := range endings {
+			for _, e2 := range seconds {
+				tid++
+				id++
+				variant := id % 4
+				label := fmt.Sprintf("status=%s variant=%d first=%s held-at-gate second=%s", statusName(st), variant, e1, e2)
+				res.CaseLabels = append(res.CaseLabels, label)
+				if onlyCase != 0 && onlyCase != id {
+					continue
+				}
+				seed := seedVariants(st, tid, 1)[variant]
+				c := rig.runSteps(id, label, tid, seed, []fsmStep{{ev: e1, gated: true, ev2: e2}})
+				cases = append(cases, c)
+				res.hist("first:" + eventName(e1.Code))
+				res.hist("second:" + eventName(e2.Code))
+				res.distinct(label)
+				if id%301 == 1 {
+					res.sample(map[string]interface{}{"case": label, "env_calls": len(c.calls), "notifications": len(c.notifs)})
+				}
+			}
+		}
+	}
+	res.Cases = len(cases)
+	res.Exhaustive = true
+	res.Rule = "exhaustive product: 16 non-terminal statuses x {Cancel, Error, Complete} x every event code known to the processor (33) sent while the cleanup handler is held at a gate inside env.CleanupChannel; every case non-trivial and distinct"
+	writeFsmCases(dir, "fsmcleanup", cases)
 	res.write(dir)
 	_ = rig.ch.Stop(context.Background())
 }
